@@ -17,6 +17,7 @@ From Coq Require Import List Arith NArith ZArith Bool.
 Require Import RV.Model.Base RV.Model.Slot RV.Model.Format RV.Model.BuilderGraph RV.Model.BuilderSem RV.Model.BuilderChecks.
 Require Import RV.Gen.Crc16Tab RV.Gen.Builders.
 Require Import RV.Proofs.FormatProofs RV.Proofs.BuilderProofs RV.Proofs.BuilderGenProofs.
+Require Import RV.Model.BuilderGen. (* the observer's check_case: built (and kept consistent) with the property *)
 Require Import RV.Model.CmdOwnership RV.Proofs.CmdOwnershipProofs.
 Import ListNotations.
 Open Scope N_scope.
